@@ -264,11 +264,16 @@ CLAIMED = {
         "failure-free plan of short writes, write_all on the sink and the field-by-field header writes leave the bytes, "
         "position and result of a sink that accepts everything at once (put_at_app: overwriting then continuing = "
         "overwriting the concatenation), and the ZipWriter write call on a stored entry writes, counts and hashes all "
-        "of its argument whatever each inner write took.  Correspondence: "
+        "of its argument whatever each inner write took; WHOLE PROGRAMS (C09_programs_chunk_independent, Proofs/ChunkSim.v, a "
+        "simulation over the entire writer state machine): two runs of the same sequence of API calls over sinks that split "
+        "writes differently (both failure-free; fresh or appended writer; any compressor/checksum) return the same result "
+        "for every call, including the bytes finish() returns, and leave the same sink bytes -- runs returning the large-file "
+        "error of write are excluded, since the point where that error fires legitimately depends on the chunking.  "
+        "Correspondence: "
         "reader model vs crate under explicit short-read plans and caller schedules on all methods and encryptions "
         "(uniform chunks, one short read at every byte position, random plans, refill patterns), short reads from the "
         "first byte of the archive compared with the unfragmented run; writer programs under short-write plans compared byte-for-byte with the unchunked run.",
-   note="Trusted: Coq kernel, extraction+driver, harness. The AES reader's lemma is relative to abstract block-cipher/MAC parameters. Whole writer programs under short writes (compressing and encrypting arms, finish) are compared byte-for-byte with the unchunked run by the correspondence, not proved; decoder chunk independence is an assumption.",
+   note="Trusted: Coq kernel, extraction+driver, harness. The AES reader's lemma is relative to abstract block-cipher/MAC parameters. Decoder chunk independence (flate2/bzip2/zstd readers) is an assumption exercised by the schedule enumeration.",
    technique="Coq proof (compositional stream denotations lifted by induction over schedules) + schedule-enumeration correspondence",
    design="8 (C09)"),
  "C12": dict(
